@@ -34,6 +34,7 @@ def apply(ctx, W):
             &&& module_scope(&final(self).modules@[spec_parent(item_definition.path)->0]) == module_scope(&old(self).modules@[spec_parent(item_definition.path)->0])
         })""",
         "res is Err ==> *final(self) == *old(self)",
+        "spec_parent(item_definition.path) is Some && old(self).modules@.contains_key(spec_parent(item_definition.path)->0) ==> res is Ok",
     ])
 
     vf = W.file("semantic/type_definition/vftable.rs")
